@@ -4,7 +4,7 @@ mod test;
 use crate::{LuaFormatConfig, Printer, SourceText};
 use emmylua_parser::{
     LuaAstNode, LuaCallArgList, LuaChunk, LuaLanguageLevel, LuaParamList, LuaParser, LuaSyntaxKind,
-    LuaSyntaxNode, LuaTableExpr, LuaTableField, LuaTokenKind, ParserConfig,
+    LuaSyntaxNode, LuaSyntaxToken, LuaTableExpr, LuaTableField, LuaTokenKind, ParserConfig,
 };
 use rowan::{TextRange, TextSize};
 
@@ -75,6 +75,14 @@ pub fn reformat_range_in_chunk(
     let dedented = strip_base_indent(fragment, &source_indent_prefix, &source_string_lines);
     let mut fragment_config = config.clone();
     fragment_config.output.insert_final_newline = fragment.ends_with('\n');
+    // The fragment is formatted without the code that follows it. When that code starts with `(`,
+    // a `;` ending the fragment is what keeps the two statements apart, so the fragment's
+    // semicolons are not treated as optional.
+    if next_code_token_after(chunk.syntax(), selected_range.end())
+        .is_some_and(|token| token.kind().to_token() == LuaTokenKind::TkLeftParen)
+    {
+        fragment_config.output.preserve_statement_semicolon = true;
+    }
     let formatted = format_fragment(&dedented, level, &fragment_config)?;
     let formatted_root =
         LuaParser::parse(&formatted, ParserConfig::with_level(level)).get_red_root();
@@ -318,6 +326,21 @@ fn layout_node_text_range(root: &LuaSyntaxNode, node: &LayoutNodePlan) -> Option
             .to_node_from_root(root)
             .map(|node| node.text_range()),
     }
+}
+
+/// First token at or after `offset` that is neither blank nor part of a comment.
+fn next_code_token_after(root: &LuaSyntaxNode, offset: TextSize) -> Option<LuaSyntaxToken> {
+    root.descendants_with_tokens()
+        .filter_map(|element| element.into_token())
+        .filter(|token| token.text_range().start() >= offset)
+        .find(|token| {
+            !matches!(
+                token.kind().to_token(),
+                LuaTokenKind::TkWhitespace | LuaTokenKind::TkEndOfLine
+            ) && !token
+                .parent_ancestors()
+                .any(|node| node.kind() == LuaSyntaxKind::Comment.into())
+        })
 }
 
 fn clamp_range(range: TextRange, upper_bound: TextSize) -> TextRange {
